@@ -263,6 +263,32 @@ def c02(seed, tier, broken):
         if not abs(gc3 - t2) <= 1e-9 * (1 + abs(t2)):
             found.append(dict(match="graph-chi2-stale", kind="graph_chi2_after_in_place_edit", impl=gc3, spec=t2, desc=desc))
             return dict(found=found, evaluations=ev)
+        # U-turns: measurements / estimates whose heading is EXACTLY +-pi or +-pi/2 (the wrap maps +pi to -pi: the documented range
+        # is half open); the angular error is then compared exactly, not modulo 2 pi
+        if desc["world"] == "2d" and rng.random() < 0.5:
+            from graphslam.pose.se2 import PoseSE2 as _SE2
+            from graphslam.vertex import Vertex as _V
+            from graphslam.edge.edge_odometry import EdgeOdometry as _EO
+
+            # headings k * pi/2 with every intermediate angle an exact float in [-pi, pi] (so that the unchanged code's own
+            # rounding at the seam cannot interfere): k in -2..2, |kb - ka| <= 2, |kz - (kb - ka)| <= 2
+            while True:
+                ka, kb, kz = rng.randrange(-2, 3), rng.randrange(-2, 3), rng.randrange(-2, 3)
+                dk = kb - ka
+                dkw = dk - 4 if dk >= 2 else dk  # the wrap of an exact multiple: +pi -> -pi
+                if abs(dk) <= 2 and abs(kz - dkw) <= 2 and abs((-2 if kz == 2 else kz) - dkw) <= 2:
+                    break
+            va, vb = _V(0, _SE2([rng.uniform(-2, 2), rng.uniform(-2, 2)], ka * (math.pi / 2))), _V(1, _SE2([rng.uniform(-2, 2), rng.uniform(-2, 2)], kb * (math.pi / 2)))
+            eo = _EO([0, 1], G.spd(rng, 3, True), _SE2([rng.uniform(-2, 2), rng.uniform(-2, 2)], kz * (math.pi / 2)), [va, vb])
+            err_ = np.asarray(eo.calc_error(), dtype=np.float64)
+            spec_ = S.edge_error(eo)
+            ev += 1
+            if spec_ is not None:
+                sa = float(spec_[2])
+                sa = -math.pi if sa >= math.pi else sa
+                if not abs(float(err_[2]) - sa) <= 1e-9 or not (-math.pi <= float(err_[2]) < math.pi) or any(not (-math.pi <= float(x.pose[2]) < math.pi) for x in (va, vb)) or not (-math.pi <= float(eo.estimate[2]) < math.pi):
+                    found.append(dict(match="edge-error:half-turn", kind="edge_error_half_turn", impl=err_.tolist(), spec=[float(spec_[0]), float(spec_[1]), sa], poses=[np.asarray(va.pose).tolist(), np.asarray(vb.pose).tolist()], estimate=np.asarray(eo.estimate).tolist(), desc=None))
+                    return dict(found=found, evaluations=ev)
         # fixed flags are an optimiser concept: chi2 is the sum over *all* edges whatever is fixed (also edges between two
         # fixed vertices)
         for vv in g._vertices:
@@ -313,10 +339,19 @@ def c02(seed, tier, broken):
     return dict(found=found, evaluations=ev)
 
 
+def _c12_custom(seed, tier, broken):
+    from search import optimizer as O
+
+    return O.search_report_custom_chi2(seed, _n(tier, broken, 12, 300))
+
+
 def c12(seed, tier, broken):
     from search import optimizer as O
 
     w, ev = O.search_report(seed, _n(tier, broken, 25, 500))
+    if not w:
+        w, ev2 = _c12_custom(seed, tier, broken)
+        ev += ev2
     return dict(found=[w] if w else [], evaluations=ev)
 
 
